@@ -80,6 +80,13 @@ Theorem C07_scale_linear_encodes : forall s segs y,
 Proof. exact scale_linear_encodes. Qed.
 Print Assumptions C07_scale_linear_encodes.
 
+Theorem C07_scale_linear_encodes_decreasing : forall s segs y,
+  num s < 0 -> continuous_decreasing (s :: segs) ->
+  valid_phys (MScaleLinear (s :: segs)) (CInt y) = true ->
+  exists x, p2i (MScaleLinear (s :: segs)) (CInt y) = COk (CInt x).
+Proof. exact scale_linear_encodes_decreasing. Qed.
+Print Assumptions C07_scale_linear_encodes_decreasing.
+
 (* TAB-INTP: every internal value declared valid (between the extreme sample points) converts *)
 Theorem C07_tabintp_valid_converts : forall pts x,
   (2 <= List.length pts)%nat ->
